@@ -340,8 +340,8 @@ Proof.
       apply orb_prop in Q. destruct Q as [Q|Q]; [apply orb_prop in Q; destruct Q as [Q|Q]|];
         apply eqb_of_true in Q; rewrite Q in D.
       * apply spec_run_flag; assumption.
-      * eapply sr_async; eauto.
-      * eapply sr_async; eauto.
+      * apply sr_async with (q1 := PAbortableError); [exact NE | exact NW | left; reflexivity | exact D].
+      * apply sr_async with (q1 := PFatalError); [exact NE | exact NW | right; reflexivity | exact D].
     + apply step_direct; assumption.
 Qed.
 
